@@ -842,6 +842,13 @@ def _mk_simple(kind, n, edges):
     if kind == 'nx':
         G.add_nodes_from(range(1, n + 1))
         G.add_edges_from(edges)
+    elif kind == 'nxodd':
+        # labels a parser or a file format may treat specially: backslash-n
+        # (two characters), the empty string, blanks, a digit string, a keyword
+        odd = ['\\n', '', ' ', '07', 'node', 'graph', '-1', 'None']
+        lab = {i: odd[(i - 1) % len(odd)] for i in range(1, n + 1)}
+        G.add_nodes_from((lab[i], {'pos': i}) for i in range(1, n + 1))
+        G.add_edges_from((lab[u], lab[v]) for u, v in edges)
     else:   # 'nxs': string labels, attributes on nodes / edges / graph
         lab = {i: 'v%d' % i for i in range(1, n + 1)}
         G.add_nodes_from((lab[i], {'weight': i}) for i in range(1, n + 1))
@@ -859,6 +866,11 @@ def _mk_directed(kind, n, edges):
             G.name = 'my {digraph}'
         return G
     G = networkx.DiGraph()
+    if kind == 'nxodd':
+        odd = ['\\n', '', ' ', '07', 'node', 'graph', '-1', 'None']
+        G.add_nodes_from(odd[(i - 1) % len(odd)] for i in range(1, n + 1))
+        G.add_edges_from((odd[(u - 1) % len(odd)], odd[(v - 1) % len(odd)]) for u, v in edges)
+        return G
     G.add_nodes_from(range(1, n + 1))
     G.add_edges_from(edges)
     return G
@@ -1067,7 +1079,7 @@ def graph_cases(tier):
     if thorough:
         bsizes += [(3, 2), (2, 3), (3, 1), (1, 3)]
     bips = [(L, Rr, [list(e) for e in es]) for (L, Rr) in bsizes for es in scope.bipartite_graphs(L, Rr)]
-    skinds = ['cnfgen', 'nx'] + (['named', 'nxs'] if thorough else ['nxs'])
+    skinds = ['cnfgen', 'nx'] + (['named', 'nxs', 'nxodd'] if thorough else ['nxs', 'nxodd'])
     classes = ['CNF', 'OPB']
     fams = _graph_fams()
     cs = []
@@ -1087,7 +1099,7 @@ def graph_cases(tier):
                                 cs.append({'part': 'G', 'fam': fam, 'gkind': gk, 'graphs': [g1, g2],
                                            'opt': oi, 'cls': cls})
                 elif kinds == 'D':
-                    for gk in ('cnfgen', 'nx', 'named'):
+                    for gk in ('cnfgen', 'nx', 'named', 'nxodd'):
                         for g in dags + digr:
                             cs.append({'part': 'G', 'fam': fam, 'gkind': gk, 'graphs': [g], 'opt': oi, 'cls': cls})
                 elif kinds == 'DB':
